@@ -90,6 +90,7 @@ def run(res, programs, tier):
             polarity.rule(res, P, P.name, "R10.4")
             from . import halftest
             halftest.rule(res, P, P.name, "R10.5")
+    _r19_6(res, programs)
     cfgs_seen = sorted({p.name for p in sub})
     new = set(res.violations) - before
     known = _known_keys()
@@ -209,6 +210,39 @@ def _r19_2(res, P, cfgname):
             res.ok("R19.2", cfgname, key, nontrivial=True)
     if P.units.get("dashu_int") is not None and P.units["dashu_int"].debug_assertions:
         res.floor("R19.2", cfgname, n, 100, "functions with debug-only regions")
+
+
+def _r19_6(res, programs):
+    """R19.6: the width of a machine word comes from `Word` (which `force_bits` / the target selects), never from
+    the pointer width.  `usize::BITS` may appear only inside the impls *for usize*: everywhere else it equals
+    Word::BITS on the build the tests run and differs on a 32-bit-word build of a 64-bit host."""
+    import json as _json
+    res.rule("R19.6", "usize::BITS (pointer width) is referenced only inside impls for usize; word-size arithmetic takes its width from Word")
+    for P in programs:
+        n = 0
+        for f in P.fns():
+            if f["crate"] not in ("dashu_int", "dashu_float", "dashu_ratio", "dashu_base") or not f.get("mir"):
+                continue
+            n += 1
+            if "impl usize>::BITS" not in _json.dumps(f["mir"]):
+                continue
+            key = "usize::BITS in " + f["p"]
+            if " for usize>" in f["p"] or f["p"].startswith("<usize as "):
+                res.ok("R19.6", P.name, key, sample=dict(function=f["p"], note="impl for usize"))
+            else:
+                res.fail("R19.6", P.name, key, "%s uses usize::BITS: with 32-bit words on a 64-bit host (force_bits=\"32\") this is 64 while a Word has 32 bits, so word / bit offsets are computed for the wrong word size" % f["p"], span_loc(f["sp"]))
+        res.floor("R19.6", P.name, n, 500, "function bodies scanned for usize::BITS")
+        # named constants that claim to be the word width must equal the Word width of this configuration
+        ref = (P.consts.get("dashu_int::primitive::WORD_BITS") or {}).get("v")
+        if ref is not None:
+            for d, c in P.consts.items():
+                nm = d.rsplit("::", 1)[-1]
+                if d.split("::", 1)[0] in ("dashu_int", "dashu_float", "dashu_ratio", "dashu_base") and "WORD_BITS" in nm and "DWORD" not in nm and "DOUBLE" not in nm:
+                    key = "const " + d
+                    if str(c.get("v")) == str(ref):
+                        res.ok("R19.6", P.name, key, nontrivial=(d != "dashu_int::primitive::WORD_BITS"), sample=dict(const=d, value=c.get("v"), word_bits=ref))
+                    else:
+                        res.fail("R19.6", P.name, key, "constant %s = %s in this configuration, but a Word has %s bits: a word width taken from the pointer size (usize::BITS) instead of Word::BITS" % (d, c.get("v"), ref))
 
 
 def shared_r19_2(res, programs):
